@@ -20,3 +20,6 @@ def run(ctx):
     if not ctx.quick():
         # the repository's own 275 tests, run with the trace hook: every transition they execute is judged
         stages.repo_suite_traces(ctx, ["C02."])
+    if not ctx.quick():
+        # unbounded facts about the transition relation (TLAPS): terminal absorbing, cleanup never leaves, bookkeeping keeps the status, own flag only, ...
+        stages.tlaps_fsm(ctx)
